@@ -17,9 +17,21 @@ def na(pid, reason):
 
 exec(open(os.path.join(os.path.dirname(__file__), "manifest_table.py")).read())
 
+# the level text is the rule set's own description (single source: internal/rules/cNN.go)
+import subprocess
+DESC = {}
+try:
+    out = subprocess.run(["/verif/bin/ergocheck", "-describe"], capture_output=True, text=True, check=True).stdout
+    DESC = json.loads(out)
+except Exception as e:
+    print("warning: bin/ergocheck -describe failed, using the table texts:", e, file=sys.stderr)
+
 checks = []
 for pid in sorted(CLAIMED):
     technique, text, note, ref = CLAIMED[pid]
+    if pid in DESC:
+        d = DESC[pid]
+        text = d["explanation"] + " These are structural necessary conditions decided on every site/path of the current source. Not decided: " + "; ".join(d.get("not_decided") or []) + "."
     checks.append({
         "property_id": pid,
         "quick_cmd": f"./bin/ergocheck -p {pid} -tier quick",
